@@ -33,7 +33,7 @@ NoLimit == -1
 
 MonInit(maxIn, maxOut) ==
   [att |-> <<>>, acc |-> {}, cand |-> <<>>, annc |-> {}, pin |-> {}, stim |-> [a |-> "none"],
-   newAtt |-> FALSE, accepted |-> FALSE, protoFail |-> FALSE, maxIn |-> maxIn, maxOut |-> maxOut, bad |-> "", taint |-> {}]
+   newAtt |-> FALSE, accepted |-> FALSE, protoFail |-> FALSE, hf |-> {}, pf |-> {}, maxIn |-> maxIn, maxOut |-> maxOut, bad |-> "", taint |-> {}]
 
 Fail(M, why) == IF M.bad = "" THEN [M EXCEPT !.bad = why] ELSE M
 \* Trace validation keeps going after a broken rule: the rule is reported, `bad` is cleared and the
@@ -48,7 +48,7 @@ Below(n, max) == max = NoLimit \/ n < max
 
 \* a new stimulus (environment or API input)
 MonStim(M, s) ==
-  LET M1 == [M EXCEPT !.stim = s, !.newAtt = FALSE, !.accepted = FALSE, !.protoFail = FALSE] IN
+  LET M1 == [M EXCEPT !.stim = s, !.newAtt = FALSE, !.accepted = FALSE, !.protoFail = FALSE, !.hf = {}, !.pf = {}] IN
   CASE s.a \in {"established", "in_est"} ->
          [M1 EXCEPT !.cand = (s.c :> [peer |-> s.p, dir |-> s.dir]) @@ @]
     [] s.a = "inbound" -> [M1 EXCEPT !.pin = @ \cup {s.c}]
@@ -77,7 +77,8 @@ MonCall(M, c) ==
                   old == [d \in DOMAIN M.att |->
                             IF Tainted(M, p) /\ M.att[d].peer = p /\ M.att[d].st \in {"open", "cancelled"}
                               THEN [M.att[d] EXCEPT !.st = "reported"] ELSE M.att[d]] IN
-              [M EXCEPT !.att = (c.cid :> [st |-> "open", peer |-> p, addrs |-> c.addrs, by |-> -1, trs |-> {CallTr(c)}]) @@ old,
+              [M EXCEPT !.att = (c.cid :> [st |-> "open", peer |-> p, addrs |-> c.addrs, by |-> -1, trs |-> {CallTr(c)},
+                                                     h |-> M.stim.a \in {"hdial", "hdial_addr"}]) @@ old,
                         !.newAtt = TRUE, !.taint = @ \ {p}]
     [] c.c = "cancel" ->
          IF c.cid \in DOMAIN M.att /\ M.att[c.cid].st = "open"
@@ -127,11 +128,14 @@ MonEvent(M, e) ==
          ELSE IF ~(\A i \in 1..Len(e.addrs) : \E j \in 1..Len(M.att[e.cid].addrs) : e.addrs[i] = M.att[e.cid].addrs[j])
            THEN Fail(M, "failure names an address that was not dialed")
          ELSE IF e.k = "dial_failure" /\ Len(e.addrs) # 1 THEN Fail(M, "failure names no address")
-         ELSE [M EXCEPT !.att[e.cid].st = "failed"]
+         \* a failed attempt that a protocol asked for is owed to the protocols as a dial failure
+         ELSE [M EXCEPT !.att[e.cid].st = "failed",
+                        !.hf = IF M.att[e.cid].h THEN @ \cup {M.att[e.cid].peer} ELSE @]
     [] e.k = "closed" -> M
     \* the requesting protocol was told that the dial it asked for failed
     [] e.k = "proto_dial_failure" ->
-         IF "p" \in DOMAIN M.stim /\ e.peer = M.stim.p THEN [M EXCEPT !.protoFail = TRUE] ELSE M
+         LET M1 == [M EXCEPT !.pf = @ \cup {e.peer}] IN
+         IF "p" \in DOMAIN M.stim /\ e.peer = M.stim.p THEN [M1 EXCEPT !.protoFail = TRUE] ELSE M1
     [] OTHER -> M
 
 \* end of the handling of one stimulus: `ret` is the API result ("ok", "err", "none"),
@@ -139,6 +143,10 @@ MonEvent(M, e) ==
 MonEnd(M, ret, panic) ==
   LET s == M.stim IN
   IF panic THEN Fail(M, "panic")
+  \* the failure of a dial that a protocol requested is reported to the protocols in the same handler,
+  \* also when the protocol's inbox was full at that moment (the report waits for room)
+  ELSE IF \E p \in M.hf : p \notin M.pf /\ ~Tainted(M, p)
+    THEN Fail(M, "protocol not told that the dial it requested failed")
   ELSE IF s.a \in {"dial", "dial_addr", "hdial", "hdial_addr"} /\ ~Tainted(M, s.p) /\ ret = "ok" /\ OpenAtt(M, s.p) = {}
           /\ ~(\E c \in DOMAIN M.cand : M.cand[c].peer = s.p) /\ AccPeer(M, s.p) = {}
           \* a protocol-initiated request may also be answered at once by a dial failure
